@@ -504,7 +504,7 @@ func (c *checker) runDriver(bin, dir string, args []string, limit time.Duration)
 func firstRepoFrame(stderr string) string {
 	lines := strings.Split(stderr, "\n")
 	for i := 0; i+1 < len(lines); i++ {
-		if strings.HasPrefix(lines[i+1], "\t/repo/") && !strings.HasPrefix(lines[i], "\t") {
+		if strings.HasPrefix(lines[i+1], "\t"+report.RepoDir()+"/") && !strings.HasPrefix(lines[i], "\t") {
 			fn := lines[i]
 			if j := strings.LastIndex(fn, "("); j > 0 {
 				fn = fn[:j]
@@ -673,7 +673,7 @@ func main() {
 			args = append(args, "./"+rel)
 			cmd := exec.Command("go", args...)
 			cmd.Dir = root
-			cmd.Env = append(os.Environ(), "GOFLAGS=-mod=mod", "GOPROXY=off", "GOSUMDB=off", "GOTOOLCHAIN=local")
+			cmd.Env = report.GoEnv()
 			out, err := cmd.CombinedOutput()
 			if err != nil {
 				buildErr[i] = string(out)
